@@ -673,7 +673,17 @@ pub fn record(args: &Args) {
 				vs.push(Value::Array(vec![num("0.0"), num("-0.0"), num("0.00"), num("0.0e5"), num("-0")]));
 			}
 			for v in vs {
-				let outc = crate::serdev::ser_outcome(guarded(|| json_syntax::to_value(&v)));
+				let mut outc = crate::serdev::ser_outcome(guarded(|| json_syntax::to_value(&v)));
+				// the object's own Serialize impl, entered directly and through references / Box, gives the same outcome
+				if let Value::Object(o) = &v {
+					for (how, other) in [("Object", crate::serdev::ser_outcome(guarded(|| json_syntax::to_value(o)))), ("&&Object", crate::serdev::ser_outcome(guarded(|| json_syntax::to_value(&&o)))),
+						("Box<Value>", crate::serdev::ser_outcome(guarded(|| json_syntax::to_value(Box::new(v.clone())))))] {
+						if other != outc {
+							outc = json!({"route_differs": how, "observed": other});
+							break;
+						}
+					}
+				}
 				lines.push(json!({"ev": "value_ser", "v": project(&v), "out": outc}));
 			}
 		}
@@ -711,6 +721,33 @@ pub fn record(args: &Args) {
 							break;
 						}
 					}
+					// side doors to the same deserialization: Value / Object as IntoDeserializer, Object's own Deserialize impl
+					// (for objects), Box<Value> as the target
+					if back.get("in_place_differs").is_none() {
+						use serde::de::IntoDeserializer;
+						use serde::Deserialize;
+						let show = |r: Result<Result<Value, json_syntax::DeserializeError>, String>| match r {
+							Ok(Ok(b)) => project(&b),
+							Ok(Err(e)) => json!({"error": e.to_string()}),
+							Err(p) => json!({"panic": p}),
+						};
+						let mut routes = vec![
+							("Value::deserialize(value.into_deserializer())", show(guarded(|| Value::deserialize(v.clone().into_deserializer())))),
+							("from_value::<Box<Value>>", show(guarded(|| json_syntax::from_value::<Box<Value>>(v.clone()).map(|b| *b)))),
+						];
+						if let Value::Object(o) = &v {
+							routes.push(("from_value::<Object>", show(guarded(|| json_syntax::from_value::<json_syntax::Object>(v.clone()).map(Value::Object)))));
+							routes.push(("Value::deserialize(object.into_deserializer())", show(guarded(|| Value::deserialize(o.clone().into_deserializer())))));
+							routes.push(("Object::deserialize(object.into_deserializer())", show(guarded(|| json_syntax::Object::deserialize(o.clone().into_deserializer()).map(Value::Object)))));
+						}
+						for (how, got) in routes {
+							// (an error message may name the expected type differently; only its presence is compared)
+							if got != back && !(got.get("error").is_some() && back.get("error").is_some()) {
+								back = json!({"route_differs": how, "observed": got});
+								break;
+							}
+						}
+					}
 					lines.push(json!({"ev": "value_de", "v": project(&v), "expect": project(&collapse(&v)), "back": back, "certs": certs}));
 				}
 				if want("text_de") {
@@ -727,6 +764,17 @@ pub fn record(args: &Args) {
 						let (m, e) = numgen::parts(f);
 						Some(json!({"sp": str_to_cps(s), "m": m.to_string().bytes().map(|b| (b - b'0') as u64).collect::<Vec<_>>(), "e": e}))
 					}).collect();
+					let mut back = back;
+					if let (Value::Object(_), None) = (&v, back.get("error")) {
+						let direct = match guarded(|| serde_json::from_str::<json_syntax::Object>(&text)) {
+							Ok(Ok(b)) => project(&Value::Object(b)),
+							Ok(Err(e)) => json!({"error": e.to_string()}),
+							Err(p) => json!({"panic": p}),
+						};
+						if direct != back {
+							back = json!({"route_differs": "serde_json::from_str::<Object>", "observed": direct});
+						}
+					}
 					lines.push(json!({"ev": "text_de", "v": project(&v), "expect": project(&collapse_last(&v)), "back": back, "certs": presented}));
 				}
 			}
